@@ -202,6 +202,7 @@ def c14_post(c):
 
 PROPS = {
     "C01": dict(
+        fuzz=dict(seconds=150),
         pre=miri_pre,
         jobs=lambda tier: both(8, None, stall_s=40, wall_s=900 if tier == "quick" else 7200),
         eval_keys=["steps"],
@@ -219,6 +220,7 @@ PROPS = {
                      "size-like operands above 5000 (300 for LIST.NEIGHBOR*) and heaps above 96 MiB are outside the envelope and counted, not judged"],
     ),
     "C02": dict(
+        fuzz=dict(seconds=120),
         jobs=lambda tier: both(6, None, stall_s=90),
         eval_keys=["runs", "empty_exec_steps"],
         rule="RAND-free programs: families terminating in exactly n steps for every n in L-2..L+3, diverging programs (EXEC.Y, a name bound "
@@ -231,6 +233,7 @@ PROPS = {
         assumptions=["shadow accounting uses the same step() function (the property is about the loop around it)"],
     ),
     "C03": dict(
+        fuzz=dict(seconds=120),
         jobs=lambda tier: both(6),
         eval_keys=["strings"],
         note_keys=["exhaustive_space"],
@@ -243,6 +246,7 @@ PROPS = {
                      "a vector literal with an empty payload may be dropped or yield an empty vector (documentation silent)"],
     ),
     "C04": dict(
+        fuzz=dict(seconds=120),
         jobs=lambda tier: both(4),
         post=c04_post,
         rule="each of the 41 scalar/conversion instructions on all 256 pairs of the 16-value int and float boundary pools plus random "
@@ -251,6 +255,7 @@ PROPS = {
         assumptions=["reference semantics transcribed from doc comments (SPEC-instructions.md)"],
     ),
     "C05": dict(
+        fuzz=dict(seconds=90),
         jobs=lambda tier: both(4),
         exhaustive=True,
         note_keys=["grid_size"],
@@ -259,6 +264,7 @@ PROPS = {
         floors={"79 instructions": lambda a, t: set_n(a, "instructions") >= 79},
     ),
     "C06": dict(
+        fuzz=dict(seconds=120),
         jobs=lambda tier: both(6, None, stall_s=60),
         eval_keys=["steps"],
         rule="(1) 18 control/index combinators and list/literal/name steps on random EXEC/CODE/INDEX contents, each step compared with the "
@@ -270,6 +276,7 @@ PROPS = {
         floors={"18 combinators": lambda a, t: set_n(a, "instructions") >= 18, "probe events": lambda a, t: a.counts.get("probe_events_checked", 0) >= 5000},
     ),
     "C07": dict(
+        fuzz=dict(seconds=90),
         jobs=lambda tier: both(6),
         eval_keys=["steps"],
         rule="random interleavings (3..16 events) over names a,b,c of: define a value of each of the 8 types (value, NAME.QUOTE name, T.DEFINE; "
@@ -280,6 +287,7 @@ PROPS = {
         floors={"sequences": lambda a, t: a.counts.get("sequences", 0) >= 2000},
     ),
     "C08": dict(
+        fuzz=dict(seconds=120),
         jobs=lambda tier: both(6),
         eval_keys=["steps", "api_relations", "relations"],
         rule="random code trees t (<= 14 points, depth <= 4, every atom kind, floats on a 1/8 grid) with a planted sub-item / near miss u and "
@@ -289,6 +297,7 @@ PROPS = {
         floors={"19 instructions": lambda a, t: set_n(a, "instructions") >= 19},
     ),
     "C09": dict(
+        fuzz=dict(seconds=120),
         jobs=lambda tier: both(8, None, stall_s=40),
         rule="overlap family: all length pairs 0..4 x 0..4 (0..6 thorough) x offsets [-len-2, len+2] + {MIN, MIN+1, MAX-1, MAX} x value "
              "draws; every other vector instruction: lengths 0..4 x integer operand {MIN,-1,0..len+1,MAX}; distinct = (name, lengths, operand class).",
@@ -296,6 +305,7 @@ PROPS = {
         supervisor_policy={},
     ),
     "C10": dict(
+        fuzz=dict(seconds=120),
         jobs=lambda tier: [shards("release", 8, None, stall_s=40)],
         exhaustive=True,
         note_keys=["patterns"],
@@ -304,6 +314,7 @@ PROPS = {
         floors={"all registered instructions": lambda a, t: set_n(a, "instructions") >= N_REGISTERED},
     ),
     "C16": dict(
+        fuzz=dict(seconds=90),
         pre=miri_pre,
         jobs=lambda tier: [shards("release", 12), shards("debug", 4)],
         eval_keys=["ops"],
@@ -316,6 +327,7 @@ PROPS = {
         floors={"histories": lambda a, t: a.counts.get("histories", 0) >= 100000},
     ),
     "C17": dict(
+        fuzz=dict(seconds=90),
         pre=miri_pre,
         jobs=lambda tier: [shards("release", 8), shards("debug", 4)],
         eval_keys=["ops", "io_steps"],
@@ -328,6 +340,7 @@ PROPS = {
         floors={"histories": lambda a, t: a.counts.get("histories", 0) >= 10000, "8 io instructions": lambda a, t: set_n(a, "instructions") >= 8},
     ),
     "C18": dict(
+        fuzz=dict(seconds=120),
         jobs=lambda tier: [shards("release", 12), shards("debug", 4)],
         eval_keys=["api_ops", "instr_steps"],
         exhaustive=True,
@@ -339,6 +352,7 @@ PROPS = {
         floors={"19 graph instructions": lambda a, t: set_n(a, "instructions") >= 19, "histories": lambda a, t: a.counts.get("histories", 0) >= 5000},
     ),
     "C20": dict(
+        fuzz=dict(seconds=90),
         jobs=lambda tier: [shards("release", 16)],
         eval_keys=["neighbourhoods", "decompositions", "instr_steps"],
         exhaustive=True,
@@ -350,6 +364,7 @@ PROPS = {
         floors={"4 instructions": lambda a, t: set_n(a, "instructions") >= 4},
     ),
     "C19": dict(
+        fuzz=dict(seconds=90),
         jobs=lambda tier: both(6),
         eval_keys=["steps"],
         rule="stack-id vectors of length 0..8 over the 9 valid ids plus {0,7,8,12,13,-1,MAX} with repeats, typed stacks with unique values "
@@ -359,6 +374,7 @@ PROPS = {
         floors={"7 instructions": lambda a, t: set_n(a, "instructions") >= 7, "round trips": lambda a, t: a.counts.get("round_trips", 0) >= 500},
     ),
     "C11": dict(
+        fuzz=dict(seconds=90),
         jobs=lambda tier: both(6),
         eval_keys=["round_trips"],
         rule="random trees (depth <= 4, <= 4 items per stack) over lists (incl. empty), ints (incl. MIN/MAX), booleans, parser-producible "
